@@ -2,7 +2,7 @@ from ..streams import aero as aero_streams, functionals
 from ..oracles import c06
 
 MODELS = ["Aero", "Functionals", "Constants", "Atmos", "AtmosTable"]
-STREAMS = [aero_streams.stream_eval_mtx, aero_streams.stream_geometry_and_flow, aero_streams.stream_system, functionals.stream_scalar_functionals]
+STREAMS = [aero_streams.stream_eval_mtx, aero_streams.stream_geometry_and_flow, aero_streams.stream_system, aero_streams.stream_chain, functionals.stream_scalar_functionals]
 ORACLES = [c06.oracle_laws]
 UNPROVED = ["the laws are proved per stage (kernel / ring / right-hand side / solution / local velocity / force / coefficient); their composition through the whole AeroPoint group is exercised by the law-level pairs of the oracle, not stated as one theorem",
             "MAC and moment-coefficient invariance under length scaling is validated by the oracle only"]
